@@ -247,7 +247,7 @@ func checkALUParamsUsed(c *core.Ctx, alus []aluDesc) {
 				}
 				st.Instances++
 				used := p.Referrers() != nil && len(*p.Referrers()) > 0
-				key := a.pkg + "." + core.FuncName(fn) + ":" + p.Name()
+				key := a.pkg + "." + core.FuncName(fn) + ":" + core.PinnedName(fn, p.Name())
 				if !used {
 					if why, ok := allow[key]; ok && why != "" {
 						st.Ob(true)
@@ -257,7 +257,7 @@ func checkALUParamsUsed(c *core.Ctx, alus []aluDesc) {
 				}
 				st.Ob(used)
 				if !used {
-					c.ReportAt("R03.24", fn, fn.Pos(), "ignored-parameter:"+core.FuncName(fn)+":"+p.Name(), fmt.Sprintf("%s never uses its parameter %s (%s): whatever the caller selects with it has no effect", core.FuncName(fn), p.Name(), p.Type()))
+					c.ReportAt("R03.24", fn, fn.Pos(), "ignored-parameter:"+core.FuncName(fn)+":"+core.PinnedName(fn, p.Name()), fmt.Sprintf("%s never uses its parameter %s (%s): whatever the caller selects with it has no effect", core.FuncName(fn), p.Name(), p.Type()))
 				}
 			}
 		}
